@@ -5,10 +5,11 @@ import json, os, sys
 ROOT = os.path.dirname(os.path.dirname(os.path.abspath(__file__)))
 cs = [json.loads(l) for l in open(sys.argv[1] if len(sys.argv) > 1 else os.path.join(ROOT, "work/C05/cases_c05.jsonl"))]
 want = {'directed-K1-ties': ('w_K1_ties', [1]), 'directed-K1-null-key': ('w_K1_null_key', [1]), 'directed-K1-null-key-single': ('w_K1_null_key_single', [1]),
-        'directed-K2-raw-order-key': ('w_K2_raw_order_key', [2]), 'directed-K3-bool-default': ('w_K3_bool_default', [3]), 'directed-K4-skip-alone': ('w_K4_skip_alone', [4]),
-        'directed-K5-variable-named-like-literal': ('w_K5_literal', [5]), 'directed-K5-variable-named-like-default': ('w_K5_default', [5]),
-        'directed-K6-null-variable-eq': ('w_K6_eq', [6]), 'directed-K6-null-variable-ne': ('w_K6_ne', [6]), 'directed-K7-first-variable-zero': ('w_K7_first_zero', [7]),
-        'directed-K8-default-with-quote': ('w_K8_quote', [8])}
+        'directed-K2-raw-order-key': ('w_K2_raw_order_key', [2]), 'directed-K3-bool-default': ('w_K3_bool_default', [3]),
+        'directed-K6-null-variable-eq': ('w_K6_eq', [6]), 'directed-K6-null-variable-ne': ('w_K6_ne', [6]), 'directed-K7-first-variable-zero': ('w_K7_first_zero', [7])}
+# classes repaired in /repo: their directed cases now satisfy the oracle
+fixed = [('directed-K4-skip-alone', 'w_K4_skip_alone'), ('directed-K5-variable-named-like-literal', 'w_K5_literal'),
+         ('directed-K5-variable-named-like-default', 'w_K5_default'), ('directed-K8-default-with-quote', 'w_K8_quote')]
 out = ["(* C05Wit.v — closed witnesses: the directed cases of harness/src/bin/c05.rs (one per known-finding class) as Gallina terms,",
        "   with the model's verdict checked by vm_compute.  The same cases are replayed on the real code on every run.",
        "   (snapshot of the harness output; regenerate with tools/c05_genwit.py if the directed cases change) *)",
@@ -18,11 +19,18 @@ for c in cs:
     k = c['kind']
     if k in want and k not in seen:
         seen.add(k); name, cl = want[k]
-        out.append("(* %s : %s *)" % (k, c['meta']['query']))
+        out.append("(* %s : %s *)" % (k, c['meta']['query'].replace('"', "'")))
         out.append("Definition %s : c05case := %s." % (name, c['coq']))
         out.append("Lemma %s_refuted : spec_C05 %s (run_C05 %s) = false /\\ known_C05 %s = [%s]." % (name, name, name, name, "; ".join(map(str, cl))))
         out.append("Proof. vm_compute. split; reflexivity. Qed.")
         out.append("")
+for k, name in fixed:
+    c = [x for x in cs if x['kind'] == k][0]
+    out.append("(* %s (repaired) : %s *)" % (k, c['meta']['query'].replace('"', "'")))
+    out.append("Definition %s : c05case := %s." % (name, c['coq']))
+    out.append("Lemma %s_holds : spec_C05 %s (run_C05 %s) = true /\\ known_C05 %s = []." % (name, name, name, name))
+    out.append("Proof. vm_compute. split; reflexivity. Qed.")
+    out.append("")
 for k, name in [('directed-baseline', 'w_baseline'), ('directed-pages-unique-key', 'w_pages_unique')]:
     c = [x for x in cs if x['kind'] == k][0]
     out.append("(* %s : %s *)" % (k, c['meta']['query']))
